@@ -134,6 +134,13 @@ def start_ops():
             [5, H3, [[], BASE, 50 * UNIT, 1]]]
 
 
+def start_ops_alt():
+    """the same buckets (and one more) created in ANOTHER order, so that a second storage object numbers its bucket rows /
+    keys differently from the first"""
+    return [create(T), create(N4), create(H3), create(O), [5, O, [[], BASE, 3 * UNIT, 7]], [5, N4, [[], BASE + 400 * UNIT, 0, 8]],
+            [5, H3, [[], BASE, 50 * UNIT, 1]]]
+
+
 def boundary_cases():
     out = []
 
@@ -162,7 +169,7 @@ def boundary_cases():
                          phase(0, [create(T)], T, p, s3, via), phase(0, [], N4, p, hb_stream(300, [3, 3]), via)])
             # two storage objects alive at once, the same bucket ids in both
             for second in ("X2", "Y"):
-                case(["X", second], [phase(0, start_ops(), T, p, s1, via), phase(1, start_ops(), T, p, s2, via),
+                case(["X", second], [phase(0, start_ops(), T, p, s1, via), phase(1, start_ops_alt(), T, p, s2, via),
                                      phase(0, [], T, p, hb_stream(20, [1, 1, 2]), via), phase(1, [], T, p, s3, via),
                                      phase(0, [delete(T), create(T)], T, p, s3, via), phase(1, [], T, p, hb_stream(300, [5, 5, 5]), via),
                                      phase(1, [delete(T), create(T)], T, p, s2, via)])
@@ -195,8 +202,12 @@ def random_case(rng):
         st = rng.randrange(len(stores))
         ops = []
         if not alive[st]:
-            ops += start_ops()
-            alive[st] = {T, O, H3}
+            if st == 1 and rng.random() < 0.7:
+                ops += start_ops_alt()
+                alive[st] = {T, O, H3, N4}
+            else:
+                ops += start_ops()
+                alive[st] = {T, O, H3}
         for _ in range(rng.choice([0, 1, 1, 2, 3])):
             r = rng.random()
             b = rng.choice(UNIV4)
